@@ -113,7 +113,7 @@ def interleavings(xs, ys):
         yield [ys[0]] + rest
 
 
-def direct_differential(run, tier):
+def direct_differential(run, tier, prefixes=('C07.',)):
     """Client 1's conversation (incl. reloads of the service table on its time line, MORE challenges and their answers) is run
     alone and with every interleaving of a second client's traffic; everything written about client 1 must be the same up to
     the serial in its tag.  Covers what the product search leaves out: reload events and challenge-response flows."""
@@ -142,7 +142,7 @@ def direct_differential(run, tier):
         'unlinked': [('C', 2), ('P', 2, 'x'), ('X', 2, 'login.svc', 'cur', 'UNL')],
     }
     if tier == 'quick':
-        Y = {k: Y[k] for k in ('pending-login', 'answered-login', 'challenged', 'unlinked')}
+        Y = {k: Y[k] for k in ('pending-login', 'answered-login', 'challenged', 'unlinked', 'hurried')}
 
     def concrete(srv, syms):
         ctx = {'cur': {}, 'old': {}, 'serial': 0}
@@ -170,6 +170,32 @@ def direct_differential(run, tier):
                 rec.append(('!during %s' % proto.ev_str(ev), tuple(mine)))
         return rec
 
+    world = [None]
+
+    def observe(srv, syms, res, label):
+        """the observer over a two-client trace (reloads are not its business: only clauses that do not depend on the service table)"""
+        if world[0] is None:
+            world[0] = proto.World(services, rules, srv.banner, 30)
+        M = proto.initial_M([1, 2])
+        ctx = {'cur': {}, 'old': {}, 'serial': 0}
+        for ev, r in zip(syms, res):
+            if ev[0] == 'RL':
+                return          # after a reload the static service table of the observer no longer applies
+            Mn, V, W = proto.step(world[0], M, ev, ctx, ctx['serial'] + 1, r.out)
+            if ev[0] == 'C':
+                ctx['serial'] += 1
+                if ev[1] in ctx['cur']:
+                    ctx['old'][ev[1]] = ctx['cur'][ev[1]]
+                ctx['cur'][ev[1]] = ctx['serial']
+            for j, inst in Mn:
+                if inst is None and j in ctx['cur'] and not (ev[0] == 'C' and ev[1] == j):
+                    ctx['old'][j] = ctx['cur'].pop(j)
+            M = Mn
+            for tag, text in V:
+                if any(tag.startswith(p) for p in prefixes) and not tag.startswith('C07.'):
+                    run.violation(tag, '[interleaving %s] %s  (events: %s)' % (label, text, ' | '.join(proto.ev_str(e) for e in syms)),
+                                  {'engine': 'E1-direct', 'conf': conf, 'mix': [list(e) for e in syms]}, dedup='direct-obs|' + tag)
+
     n = 0
     with e1.Server(conf, builddir=b, files=files) as srv:
         for xn, xs in X.items():
@@ -190,7 +216,9 @@ def direct_differential(run, tier):
                     res, status, err, ex = srv.trace(concrete(srv, mix), 0)
                     n += 1
                     got = about1(res, mix) if status == 'ok' else status
-                    if got != base:
+                    if status == 'ok':
+                        observe(srv, mix, res, xn + '+' + yn)
+                    if got != base and any(p.startswith('C07') for p in prefixes):
                         k = next((i for i in range(min(len(got), len(base))) if got[i] != base[i]), None) if isinstance(got, list) else None
                         run.violation('C07.interleaving', 'client 1 (%s) with client 2 (%s) interleaved as [%s]: %s; alone: %s'
                                       % (xn, yn, ' | '.join(proto.ev_str(e) for e in mix), got[k] if k is not None else got, base[k] if k is not None else base),
